@@ -837,3 +837,22 @@ Theorem C05_db_query_remove_edge_preserves_stored_db :
                         frame (hp sp) (hp sp') (sd_foot root w) (sd_foot root w')).
 Proof. exact so_q_remove_edge_stored. Qed.
 Print Assumptions C05_db_query_remove_edge_preserves_stored_db.
+
+(* the public removal of a NODE that has no edges and no alias (so_q_remove h n, n > 0: DbImpl::remove_id = remove_node with an
+   empty node_edges list — no cascade —, graph.remove_node, remove_all_values): DbModel's remove_node_db d n None succeeds
+   (no error) and the final store holds remove_all_values of its result *)
+Theorem C05_db_query_remove_isolated_node_preserves_stored_db :
+  forall (fl : bool) root d w h n sp,
+    stored_db_w (hp sp) root d w -> so_handles h w -> (0 < n)%Z ->
+    so_graph_ok (gr d) -> is_node (gr d) n = true ->
+    from (gr d) n = 0%Z -> to (gr d) n = 0%Z -> (1 <= tmeta (gr d) 0)%Z ->
+    so_slot_valid (sw_vi w) (zabs_nat n) ->
+    (forall x, In x (kvs_get (vals d) n) -> idx_find (indexes d) (fst x) = None) ->
+    cwp fl (so_q_remove h n) sp
+        (fun r sp' => exists h' w', r = CrOk h' /\
+                        stored_db_w (hp sp') root (remove_all_values (fst (remove_node_db d n None)) n) w' /\
+                        snd (remove_node_db d n None) = None /\
+                        so_handles h' w' /\ sdepth sp' = sdepth sp /\
+                        frame (hp sp) (hp sp') (sd_foot root w) (sd_foot root w')).
+Proof. exact so_q_remove_isolated_node_stored. Qed.
+Print Assumptions C05_db_query_remove_isolated_node_preserves_stored_db.
